@@ -514,6 +514,10 @@ class Schema(dict, metaclass=LogicalMeta):
                 raise exc.DeleteError(
                     f"{self.__name__}: Attempt to delete required schema key: {repr(key)}"
                 )
+        for field in self.__parser__.fields.values():
+            if field.name in self:
+                # do not leave the values readable as attributes
+                self.__dict__.pop(field.attname, None)
         return super().clear()
 
 
